@@ -4,6 +4,7 @@ From Coq Require Import ZArith List Bool Lia ZifyBool.
 From V Require Import Base.Int Base.IO Base.IntLemmas Base.Lift Gen.TzInfo.
 From V Require Import Model.TzParser Model.TzRule Model.TzLookup.
 From V Require Export Proofs.TzCommon.
+From V Require Import Proofs.TzEval Proofs.TzGrammar.
 Import ListNotations.
 Open Scope Z_scope.
 Ltac Zify.zify_post_hook ::= Z.to_euclidean_division_equations.
@@ -64,3 +65,626 @@ Proof.
   destruct (_ ?= _); repeat match goal with |- context [if ?c then _ else _] => destruct c end;
     try (eexists; reflexivity); apply IH; exact HF'.
 Qed.
+
+(** ** Header and data blocks *)
+Definition hdr_ok (h : header) : Prop :=
+  0 <= ut_local_count h <= u32_max /\ 0 <= std_wall_count h <= u32_max /\
+  0 <= leap_count h <= u32_max /\ 0 <= transition_count h <= u32_max /\
+  1 <= type_count h <= u32_max /\ 1 <= char_count h <= u32_max.
+(* bytes occupied by a header and its data block with [ts]-byte times *)
+Definition block_size (h : header) (ts : Z) : Z :=
+  44 + transition_count h * ts + transition_count h + type_count h * 6 + char_count h
+  + leap_count h * (ts + 4) + std_wall_count h + ut_local_count h.
+
+Lemma bytes_eqb_eq (a b : bytes) : bytes_eqb a b = true -> a = b.
+Proof.
+  revert b. induction a as [|x a IH]; intros [|y b] H; cbn [bytes_eqb] in H; try discriminate; [reflexivity|].
+  apply andb_prop in H. destruct H as [H1 H2]. f_equal; [lia|apply IH; exact H2].
+Qed.
+Lemma as_usize_id z : 0 <= z <= u32_max -> as_usize z = z.
+Proof. intros H. change (as_usize z) with (as_u64 z). apply as_u64_id. range_solver. Qed.
+
+(* the six counts of a header are the big-endian words at offsets 20..43 of the bytes it was read from *)
+Definition hdr_layout (h : header) (s : bytes) : Prop :=
+  exists pre b1 b2 b3 b4 b5 b6 rest,
+    s = pre ++ b1 ++ b2 ++ b3 ++ b4 ++ b5 ++ b6 ++ rest /\ zlen pre = 20 /\
+    zlen b1 = 4 /\ zlen b2 = 4 /\ zlen b3 = 4 /\ zlen b4 = 4 /\ zlen b5 = 4 /\ zlen b6 = 4 /\
+    ut_local_count h = be_uint b1 /\ std_wall_count h = be_uint b2 /\ leap_count h = be_uint b3 /\
+    transition_count h = be_uint b4 /\ type_count h = be_uint b5 /\ char_count h = be_uint b6.
+
+Lemma header_new_spec N c : cur_ok N c ->
+  postr (header_new c)
+        (fun '(h, c') => cur_ok N c' /\ hdr_ok h /\ read_count c' = read_count c + 44 /\
+                         (exists rest, remaining c = 84 :: 90 :: 105 :: 102 :: rest) /\
+                         hdr_layout h (remaining c)).
+Proof.
+  intros Hc. unfold header_new.
+  eapply postr_rbind; [apply read_exact_spec; exact Hc|]. intros [magic c1] (Hc1 & Hml & _ & Hm & Hr1).
+  match goal with |- context [negb (bytes_eqb magic ?t)] => destruct (bytes_eqb magic t) eqn:Em end;
+    cbn [negb]; [|apply postr_fail].
+  apply bytes_eqb_eq in Em. cbv in Em.
+  eapply postr_rbind; [apply read_exact_spec; exact Hc1|]. intros [vb c2] (Hc2 & Hvl & _ & Hveq & Hr2).
+  eapply postr_rbind with (P := fun _ => True).
+  { destruct vb as [|v0 [|v1 vr]]; [apply postr_fail| |].
+    destruct (Z.eq_dec v0 0) as [->|H0]; [apply postr_ok; exact I|].
+    destruct (Z.eq_dec v0 50) as [->|H50]; [apply postr_ok; exact I|].
+    destruct (Z.eq_dec v0 51) as [->|H51]; [apply postr_ok; exact I|].
+    assert (E : forall (X : Type) (a b0 c0 d0 : X), match v0 with 0 => a | 50 => b0 | 51 => c0 | _ => d0 end = d0).
+    { intros X a b0 c0 d0. destruct v0 as [|p|p]; try reflexivity; [lia|].
+      repeat (destruct p as [p|p|]; try reflexivity); lia. }
+    rewrite E. apply postr_fail.
+    destruct v0 as [|p|p]; try apply postr_fail.
+    repeat (destruct p as [p|p|]; try apply postr_fail). }
+  intros v _.
+  eapply postr_rbind; [apply read_exact_spec; exact Hc2|]. intros [rsv c3] (Hc3 & Hrl & _ & Hreq & Hr3).
+  eapply postr_rbind; [apply read_be_u32_spec; exact Hc3|]. intros [n1 c4] (Hc4 & Hn1 & Hr4 & (b1 & Hq1 & Hbl1 & Hv1)).
+  eapply postr_rbind; [apply read_be_u32_spec; exact Hc4|]. intros [n2 c5] (Hc5 & Hn2 & Hr5 & (b2 & Hq2 & Hbl2 & Hv2)).
+  eapply postr_rbind; [apply read_be_u32_spec; exact Hc5|]. intros [n3 c6] (Hc6 & Hn3 & Hr6 & (b3 & Hq3 & Hbl3 & Hv3)).
+  eapply postr_rbind; [apply read_be_u32_spec; exact Hc6|]. intros [n4 c7] (Hc7 & Hn4 & Hr7 & (b4 & Hq4 & Hbl4 & Hv4)).
+  eapply postr_rbind; [apply read_be_u32_spec; exact Hc7|]. intros [n5 c8] (Hc8 & Hn5 & Hr8 & (b5 & Hq5 & Hbl5 & Hv5)).
+  eapply postr_rbind; [apply read_be_u32_spec; exact Hc8|]. intros [n6 c9] (Hc9 & Hn6 & Hr9 & (b6 & Hq6 & Hbl6 & Hv6)).
+  match goal with |- context [if ?cnd then _ else _] => destruct cnd eqn:Ec end; [apply postr_fail|].
+  apply postr_ok. rewrite !as_usize_id by assumption.
+  split; [exact Hc9|]. split; [|split; [|split]].
+  - unfold hdr_ok. cbn [ut_local_count std_wall_count leap_count transition_count type_count char_count].
+    unfold u32_max in *. lia.
+  - lia.
+  - subst magic. exists (remaining c1). exact Hm.
+  - exists (magic ++ vb ++ rsv), b1, b2, b3, b4, b5, b6, (remaining c9).
+    cbn [ut_local_count std_wall_count leap_count transition_count type_count char_count].
+    split; [|rewrite !zlen_app; repeat split; try assumption; lia].
+    rewrite Hm, Hveq, Hreq, Hq1, Hq2, Hq3, Hq4, Hq5, Hq6. rewrite <- !app_assoc. reflexivity.
+Qed.
+
+Record st_ok (st : state) (ts : Z) : Prop := mk_st_ok {
+  so_hdr : hdr_ok (st_header st);
+  so_ts : time_size st = ts;
+  so_times : zlen (st_transition_times st) = transition_count (st_header st) * ts /\ Forall byte (st_transition_times st);
+  so_types : zlen (st_transition_types st) = transition_count (st_header st) /\ Forall byte (st_transition_types st);
+  so_ltts : zlen (st_local_time_types st) = type_count (st_header st) * 6 /\ Forall byte (st_local_time_types st);
+  so_names : zlen (st_names st) = char_count (st_header st) /\ Forall byte (st_names st);
+  so_leaps : zlen (st_leap_seconds st) = leap_count (st_header st) * (ts + 4) /\ Forall byte (st_leap_seconds st);
+  so_sw : Forall byte (st_std_walls st);
+  so_ul : Forall byte (st_ut_locals st) }.
+
+Lemma state_new_spec N c first : cur_ok N c ->
+  postr (state_new c first)
+        (fun '(st, c') => cur_ok N c' /\ st_ok st (if first then 4 else 8) /\
+                          read_count c' = read_count c + block_size (st_header st) (if first then 4 else 8) /\
+                          (exists rest, remaining c = 84 :: 90 :: 105 :: 102 :: rest) /\
+                          hdr_layout (st_header st) (remaining c)).
+Proof.
+  intros Hc. unfold state_new.
+  eapply postr_rbind; [apply header_new_spec; exact Hc|]. intros [h c1] (Hc1 & Hh & Hr1 & Hmagic & Hlay).
+  set (ts := if first then 4 else 8).
+  assert (Hts : ts = 4 \/ ts = 8) by (subst ts; destruct first; auto).
+  destruct Hh as (H1 & H2 & H3 & H4 & H5 & H6). unfold u32_max in *.
+  unfold_ops. rewrite chk_in by (destruct Hts as [-> | ->]; range_solver). cbv [bind].
+  eapply postr_rbind; [apply read_exact_spec; exact Hc1|]. intros [b1 c2] (Hc2 & Hl1 & Hb1 & _ & Hr2).
+  eapply postr_rbind; [apply read_exact_spec; exact Hc2|]. intros [b2 c3] (Hc3 & Hl2 & Hb2 & _ & Hr3).
+  rewrite chk_in by range_solver. cbv beta iota.
+  eapply postr_rbind; [apply read_exact_spec; exact Hc3|]. intros [b3 c4] (Hc4 & Hl3 & Hb3 & _ & Hr4).
+  eapply postr_rbind; [apply read_exact_spec; exact Hc4|]. intros [b4 c5] (Hc5 & Hl4 & Hb4 & _ & Hr5).
+  rewrite chk_in by (destruct Hts as [-> | ->]; range_solver). cbv beta iota.
+  rewrite chk_in by (destruct Hts as [-> | ->]; range_solver). cbv beta iota.
+  eapply postr_rbind; [apply read_exact_spec; exact Hc5|]. intros [b5 c6] (Hc6 & Hl5 & Hb5 & _ & Hr6).
+  eapply postr_rbind; [apply read_exact_spec; exact Hc6|]. intros [b6 c7] (Hc7 & Hl6 & Hb6 & _ & Hr7).
+  eapply postr_rbind; [apply read_exact_spec; exact Hc7|]. intros [b7 c8] (Hc8 & Hl7 & Hb7 & _ & Hr8).
+  apply postr_ok. split; [exact Hc8|]. split; [|split; [|split; [exact Hmagic|exact Hlay]]].
+  - constructor; cbn [st_header time_size st_transition_times st_transition_types st_local_time_types
+                       st_names st_leap_seconds st_std_walls st_ut_locals]; auto.
+    unfold hdr_ok, u32_max. lia.
+  - cbn [st_header]. unfold block_size. lia.
+Qed.
+
+(** ** chunks_exact *)
+Lemma chunks_aux_spec n : forall l k acc,
+  (List.length acc + S k = n)%nat -> Forall byte acc -> Forall byte l ->
+  Forall (fun ch => List.length ch = n /\ Forall byte ch) (chunks_aux n k acc l) /\
+  (List.length (chunks_aux n k acc l) <= List.length l)%nat.
+Proof.
+  induction l as [|x r IH]; intros k acc Hk Ha Hl; cbn [chunks_aux].
+  - split; [constructor|cbn; lia].
+  - inversion Hl as [|? ? Hx Hr]; subst. destruct k as [|k'].
+    + destruct (IH (pred (List.length acc + 1)) []) as [I1 I2]; [cbn; lia|constructor|exact Hr|].
+      split.
+      * constructor; [|exact I1]. split.
+        -- rewrite rev_length. cbn [List.length]. lia.
+        -- apply Forall_rev. constructor; assumption.
+      * cbn [List.length]. lia.
+    + destruct (IH k' (x :: acc)) as [I1 I2]; [cbn [List.length]; lia|constructor; assumption|exact Hr|].
+      split; [exact I1|cbn [List.length]; lia].
+Qed.
+Lemma chunks_exact_spec n l : 1 <= n -> Forall byte l ->
+  post (chunks_exact n l) (fun cs => Forall (fun ch => zlen ch = n /\ Forall byte ch) cs /\ zlen cs <= zlen l).
+Proof.
+  intros Hn Hl. unfold chunks_exact. destruct (n <=? 0) eqn:E; [lia|]. apply post_val.
+  destruct (chunks_aux_spec (Z.to_nat n) l (pred (Z.to_nat n)) []) as [I1 I2]; [cbn; lia|constructor|exact Hl|].
+  split.
+  - eapply Forall_impl; [|exact I1]. intros ch [H1 H2]. split; [unfold zlen; lia|exact H2].
+  - unfold zlen. lia.
+Qed.
+
+Lemma Forall_zip {X Y} (P : X -> Prop) (Q : Y -> Prop) : forall (a : list X) (b : list Y),
+  Forall P a -> Forall Q b -> Forall (fun '(x, y) => P x /\ Q y) (zip a b) /\ zlen (zip a b) <= zlen a.
+Proof.
+  induction a as [|x a IH]; intros b Ha Hb; cbn [zip].
+  - split; [apply Forall_nil|unfold zlen; cbn [List.length]; lia].
+  - destruct b as [|y b]; [split; [apply Forall_nil|rewrite zlen_cons; pose proof (zlen_nonneg a); change (zlen (@nil (X*Y))) with 0; lia]|].
+    inversion Ha; inversion Hb; subst. destruct (IH b) as [I1 I2]; [assumption|assumption|].
+    split; [constructor; auto|rewrite !zlen_cons; lia].
+Qed.
+
+Lemma map_res_len {A T} (f : A -> R (res T)) (P : A -> Prop) (Q : T -> Prop) (l : list A) :
+  Forall P l -> (forall a, P a -> postr (f a) Q) ->
+  postr (map_res f l) (fun r => Forall Q r /\ zlen r = zlen l).
+Proof.
+  intros HF Hf. induction HF as [|a r Ha HF IH]; cbn [map_res]; [apply postr_ok; split; [constructor|reflexivity]|].
+  eapply postr_rbind; [apply Hf; exact Ha|]. intros b Hb.
+  eapply postr_rbind; [exact IH|]. intros bs [Hbs Hlen]. apply postr_ok.
+  split; [constructor; assumption|rewrite !zlen_cons; lia].
+Qed.
+
+(** ** Per-record decoders *)
+Lemma parse_time_spec arr v ts : (ts = 4 \/ ts = 8) -> zlen arr = ts -> Forall byte arr ->
+  postr (parse_time arr v) (fun t => in_i64 t = true).
+Proof.
+  intros Hts Hl Hb. unfold parse_time. destruct v.
+  - unfold slice_to. eapply postr_bind; [apply (slice_post byte arr 0 4); [lia|lia|exact Hb]|].
+    intros a _. eapply postr_weaken; [apply read_be_i32_spec|]. intros t Ht. range_solver.
+  - apply read_be_i64_spec.
+  - apply read_be_i64_spec.
+Qed.
+
+Definition tr_ok (t : transition) : Prop := in_i64 (tr_time t) = true /\ 0 <= tr_idx t < 256.
+Definition leap_ok (l : leap) : Prop := in_i64 (lp_time l) = true /\ in_i32 (lp_corr l) = true.
+
+Lemma parse_transition_spec ts v (p : bytes * Z) : (ts = 4 \/ ts = 8) ->
+  (let '(arr, ty) := p in (zlen arr = ts /\ Forall byte arr) /\ byte ty) ->
+  postr (let '(arr_time, ty) := p in
+         let* a := slice arr_time 0 ts in
+         let+ t := parse_time a v in
+         ok (mk_tr t (as_usize ty))) tr_ok.
+Proof.
+  intros Hts. destruct p as [arr ty]. intros [[Hl Hb] Hty].
+  eapply postr_bind; [apply (slice_post byte arr 0 ts); [lia|lia|exact Hb]|].
+  intros a (Ha1 & Ha2 & _).
+  eapply postr_rbind; [apply (parse_time_spec a v ts); [exact Hts|lia|exact Ha2]|].
+  intros t Ht. apply postr_ok. unfold tr_ok, byte in *. cbn [tr_time tr_idx].
+  rewrite as_usize_id by (unfold u32_max; lia). split; [exact Ht|lia].
+Qed.
+
+Lemma In_byte (l : bytes) x : Forall byte l -> In x l -> byte x.
+Proof. intros H Hi. rewrite Forall_forall in H. apply H. exact Hi. Qed.
+
+Lemma parse_ltt_spec names cc arr : zlen names = cc -> cc <= u32_max -> Forall byte names -> zlen arr = 6 -> Forall byte arr ->
+  postr (parse_ltt names cc arr) ltt_ok.
+Proof.
+  intros Hn Hcc Hnb Hl Hb. unfold parse_ltt, slice_to.
+  eapply postr_bind; [apply (slice_post byte arr 0 4); [lia|lia|exact Hb]|]. intros a4 _.
+  eapply postr_rbind; [apply read_be_i32_spec|]. intros ut Hut.
+  eapply postr_bind; [apply (index_post arr 4); lia|]. intros b4 Hb4.
+  eapply postr_rbind with (P := fun _ => True).
+  { destruct b4 as [|p|p]; try apply postr_fail; [apply postr_ok; exact I|].
+    destruct p; try apply postr_fail. apply postr_ok; exact I. }
+  intros dst _.
+  eapply postr_bind; [apply (index_post arr 5); lia|]. intros b5 Hb5.
+  pose proof (In_byte arr b5 Hb Hb5) as Hb5r. unfold byte in Hb5r.
+  destruct (b5 >=? cc) eqn:E; [apply postr_fail|].
+  unfold slice_from.
+  eapply postr_bind; [apply (slice_post byte names b5 (zlen names)); [lia|lia|exact Hnb]|].
+  intros tail (Ht1 & Ht2 & _).
+  pose proof (prefix_len_bounds (fun x => negb (x =? 0)) tail) as Hp.
+  set (pos := prefix_len (fun x => negb (x =? 0)) tail) in *. clearbody pos.
+  destruct (pos >=? zlen tail) eqn:E2; [apply postr_fail|].
+  cbv beta in *. unfold_ops. rewrite chk_in by range_solver. cbv [bind].
+  eapply postr_bind; [apply (slice_post byte names b5 (b5 + pos)); [lia|lia|exact Hnb]|].
+  intros nm _.
+  eapply postr_weaken; [apply ltt_new_spec; exact Hut|]. intros l (H & _). exact H.
+Qed.
+
+Lemma parse_leap_spec ts v arr : (ts = 4 \/ ts = 8) -> zlen arr = ts + 4 -> Forall byte arr ->
+  postr (parse_leap ts v arr) leap_ok.
+Proof.
+  intros Hts Hl Hb. unfold parse_leap.
+  eapply postr_bind; [apply (slice_post byte arr 0 ts); [lia|lia|exact Hb]|]. intros a (Ha1 & Ha2 & _).
+  eapply postr_rbind; [apply (parse_time_spec a v ts); [exact Hts|lia|exact Ha2]|]. intros t Ht.
+  unfold_ops. rewrite chk_in by (destruct Hts as [-> | ->]; range_solver). cbv [bind].
+  eapply postr_bind; [apply (slice_post byte arr ts (ts + 4)); [lia|lia|exact Hb]|]. intros b _.
+  eapply postr_rbind; [apply read_be_i32_spec|]. intros corr Hc.
+  apply postr_ok. split; assumption.
+Qed.
+
+(** ** Binary search *)
+Lemma count_below_bounds s k : 0 <= count_below s k <= zlen s.
+Proof.
+  induction s as [|x r IH]; cbn [count_below]; [change (zlen (@nil Z)) with 0; lia|].
+  rewrite zlen_cons. destruct (x <? k); lia.
+Qed.
+Lemma nth_z_aux_some {A} (l : list A) : forall n x, nth_z_aux l n = Some x -> (n < List.length l)%nat.
+Proof.
+  induction l as [|a l IH]; intros n x H; destruct n; cbn in *; try discriminate; [lia|].
+  apply IH in H. lia.
+Qed.
+Lemma search_next_spec s k : zlen s < u64_max -> post (search_next s k) (fun r => 0 <= r <= zlen s).
+Proof.
+  intros Hl. unfold search_next, binary_search.
+  pose proof (count_below_bounds s k) as Hb. set (i := count_below s k) in *. clearbody i.
+  destruct (nth_z_aux s (Z.to_nat i)) as [x|] eqn:En.
+  - apply nth_z_aux_some in En. destruct (x =? k).
+    + unfold_ops. rewrite chk_in by (unfold zlen in *; range_solver). apply post_val. unfold zlen. lia.
+    + apply post_val. lia.
+  - apply post_val. lia.
+Qed.
+
+(** ** Construction: validate never traps, and an accepted zone is well formed *)
+Fixpoint incr_leaps (l : list leap) : Prop :=
+  match l with
+  | a :: ((b :: _) as r) => lp_time a < lp_time b /\ incr_leaps r
+  | _ => True
+  end.
+Record zone_wf (z : timezone) : Prop := mk_zone_wf {
+  zw_nonempty : local_time_types z <> [];
+  zw_types : Forall ltt_ok (local_time_types z);
+  zw_trans : Forall (fun t => in_i64 (tr_time t) = true /\ 0 <= tr_idx t < zlen (local_time_types z)) (transitions z);
+  zw_incr : increasing (map tr_time (transitions z));
+  zw_leaps : Forall leap_ok (leap_seconds z);
+  zw_leaps_incr : incr_leaps (leap_seconds z);
+  zw_rule : match extra_rule z with Some r => rule_ok r | None => True end;
+  zw_len : zlen (transitions z) < i64_max /\ zlen (leap_seconds z) < i64_max }.
+
+Lemma validate_leaps_cons2 x0 x1 r :
+  validate_leaps (x0 :: x1 :: r) =
+  if negb ((sat_i64 (lp_time x1 - lp_time x0) >=? TZ_SECONDS_PER_28_DAYS - 1)
+           && (sat_i32 (Z.abs (sat_i32 (lp_corr x1 - lp_corr x0))) =? 1))
+  then Err ETimeZone else validate_leaps (x1 :: r).
+Proof. reflexivity. Qed.
+Lemma sat_ge d : (sat_i64 d >=? TZ_SECONDS_PER_28_DAYS - 1) = true -> 2419199 <= d.
+Proof.
+  unfold TZ_SECONDS_PER_28_DAYS, sat_i64, clamp, i64_min, i64_max. intros E1.
+  destruct (d <? -9223372036854775808) eqn:Ea; [lia|].
+  destruct (9223372036854775807 <? d) eqn:Eb; lia.
+Qed.
+Lemma validate_leaps_sound l : validate_leaps l = Ok tt -> incr_leaps l.
+Proof.
+  induction l as [|x0 r IH]; intros H; [exact I|].
+  destruct r as [|x1 r']; [exact I|]. rewrite validate_leaps_cons2 in H.
+  match type of H with (if ?c then _ else _) = _ => destruct c eqn:E end; [discriminate|].
+  split; [|apply IH; exact H].
+  apply Bool.negb_false_iff in E. apply andb_prop in E. destruct E as [E1 _].
+  apply sat_ge in E1. lia.
+Qed.
+
+Lemma last_of_In {A} (l : list A) x : last_of l = Some x -> In x l.
+Proof.
+  unfold last_of. intros H. destruct (rev l) as [|y r] eqn:E; [discriminate|]. injection H as ->.
+  apply in_rev. rewrite E. left. reflexivity.
+Qed.
+
+Lemma oor_to_post {A} e' (x : R (res A)) Q : postr x Q -> postr (oor_to e' x) Q.
+Proof.
+  intros (r & -> & Hr). unfold oor_to. destruct r as [a|e].
+  - exists (Ok a). auto.
+  - destruct e; eexists; split; try reflexivity; exact I.
+Qed.
+
+Lemma unix_leap_time_to_unix_time_spec leaps t : Forall leap_ok leaps -> zlen leaps < i64_max ->
+  in_i64 t = true -> postr (unix_leap_time_to_unix_time leaps t) (fun u => in_i64 u = true).
+Proof.
+  intros HF Hl Ht. unfold unix_leap_time_to_unix_time.
+  destruct (t =? i64_min) eqn:E; [apply postr_fail|].
+  unfold_ops. rewrite chk_in by range_solver. cbv [bind].
+  destruct (search_next_spec (map lp_time leaps) (t - 1)) as (idx & -> & Hidx).
+  { unfold zlen in *. rewrite map_length. unfold i64_max, u64_max in *. lia. }
+  assert (Hml : zlen (map lp_time leaps) = zlen leaps) by (unfold zlen; rewrite map_length; reflexivity).
+  rewrite Hml in Hidx.
+  assert (Hcorr : post (if idx >? 0 then let* i := chk in_usize (idx - 1) in let* l := index leaps i in Val (lp_corr l) else Val 0)
+                       (fun c => in_i32 c = true)).
+  { destruct (idx >? 0) eqn:E2; [|apply post_val; reflexivity].
+    rewrite chk_in by (unfold i64_max in *; range_solver). cbv [bind].
+    destruct (index_post_P leap_ok leaps (idx - 1) ltac:(lia) HF) as (l & -> & Hlk).
+    apply post_val. apply Hlk. }
+  destruct Hcorr as (corr & Hc & Hcr). cbv [bind] in Hc. rewrite Hc. cbv beta iota.
+  unfold checked_sub, chko. destruct (in_i64 (t - corr)) eqn:E3; [apply postr_ok; exact E3|apply postr_fail].
+Qed.
+
+Lemma validate_spec z :
+  Forall tr_ok (transitions z) -> Forall ltt_ok (local_time_types z) -> Forall leap_ok (leap_seconds z) ->
+  match extra_rule z with Some r => rule_ok r | None => True end ->
+  zlen (transitions z) < i64_max -> zlen (leap_seconds z) < i64_max ->
+  postr (validate z) (fun _ => zone_wf z).
+Proof.
+  intros Htr Hty Hlp Hrule Hl1 Hl2. unfold validate.
+  destruct (zlen (local_time_types z) =? 0) eqn:E0; [apply postr_fail|].
+  destruct (validate_transitions (zlen (local_time_types z)) (transitions z)) as [[]|e] eqn:Evt;
+    [|eexists; split; [reflexivity|exact I]].
+  cbn [rbind]. destruct (validate_transitions_sound _ _ Evt) as [Hidx Hinc].
+  eapply postr_rbind with (P := fun _ => True).
+  { destruct (leap_seconds z); [apply postr_ok; exact I|].
+    match goal with |- context [if ?c then _ else _] => destruct c end; [apply postr_fail|apply postr_ok; exact I]. }
+  intros _ _.
+  destruct (validate_leaps (leap_seconds z)) as [[]|e] eqn:Evl; [|eexists; split; [reflexivity|exact I]].
+  cbn [rbind].
+  assert (Hwf : zone_wf z).
+  { constructor; try assumption.
+    - intros En. rewrite En in E0. cbn in E0. discriminate.
+    - rewrite Forall_forall in *. intros t Ht. specialize (Htr t Ht). specialize (Hidx t Ht).
+      destruct Htr as [H1 H2]. split; [exact H1|lia].
+    - apply validate_leaps_sound. exact Evl.
+    - split; assumption. }
+  destruct (extra_rule z) as [rule|]; [|apply postr_ok; exact Hwf].
+  destruct (last_of (transitions z)) as [last|] eqn:El; [|apply postr_ok; exact Hwf].
+  apply last_of_In in El.
+  pose proof (proj1 (Forall_forall _ _) (zw_trans z Hwf) last El) as [Hlt Hli].
+  eapply postr_bind; [apply (index_post (local_time_types z) (tr_idx last)); exact Hli|]. intros last_ltt _.
+  eapply postr_rbind; [apply oor_to_post; apply unix_leap_time_to_unix_time_spec; assumption|]. intros ut Hut.
+  eapply postr_rbind; [apply oor_to_post; apply rule_find_local_time_type_total; assumption|]. intros rl _.
+  match goal with |- context [if ?c then _ else _] => destruct c end; [apply postr_fail|apply postr_ok; exact Hwf].
+Qed.
+
+Lemma tz_new_spec tr ty lp rule :
+  Forall tr_ok tr -> Forall ltt_ok ty -> Forall leap_ok lp ->
+  match rule with Some r => rule_ok r | None => True end ->
+  zlen tr < i64_max -> zlen lp < i64_max ->
+  postr (tz_new tr ty lp rule) (fun z => z = mk_tz tr ty lp rule /\ zone_wf z).
+Proof.
+  intros. unfold tz_new. eapply postr_rbind; [apply validate_spec; cbn; assumption|].
+  intros u Hwf. apply postr_ok. split; [reflexivity|exact Hwf].
+Qed.
+
+(** ** The TZif reader: total on every byte string, and sound when it accepts *)
+Lemma drop_while_sub f s : Forall byte s -> Forall byte (drop_while f s) /\ zlen (drop_while f s) <= zlen s.
+Proof.
+  induction s as [|x r IH]; intros H; cbn [drop_while]; [split; [constructor|lia]|].
+  inversion H; subst. destruct (f x); [|split; [exact H|lia]].
+  destruct (IH ltac:(assumption)) as [I1 I2]. split; [exact I1|rewrite zlen_cons; lia].
+Qed.
+Lemma zlen_rev {A} (l : list A) : zlen (rev l) = zlen l.
+Proof. unfold zlen. rewrite rev_length. reflexivity. Qed.
+Lemma trim_sub s : Forall byte s -> Forall byte (trim_ascii_ws s) /\ zlen (trim_ascii_ws s) <= zlen s.
+Proof.
+  intros H. unfold trim_ascii_ws.
+  destruct (drop_while_sub is_ascii_whitespace s H) as [H1 H2].
+  destruct (drop_while_sub is_ascii_whitespace (rev (drop_while is_ascii_whitespace s)) (Forall_rev H1)) as [H3 H4].
+  split; [apply Forall_rev; exact H3|]. rewrite zlen_rev. rewrite zlen_rev in H4. lia.
+Qed.
+
+Definition data_ok (data : bytes) : Prop := zlen data < i64_max /\ Forall byte data.
+
+Lemma footer_spec (footer : option bytes) (ext : bool) :
+  match footer with Some f => Forall byte f /\ zlen f < i64_max | None => True end ->
+  postr (match footer with
+         | Some footer =>
+             if negb (utf8_valid footer) then fail EUtf8 else
+             if negb (match footer with 10 :: _ => true | _ => false end
+                      && match last_byte footer with Some 10 => true | _ => false end)
+             then fail EInvalidTzFile else
+             let tz_string := trim_ascii_ws footer in
+             if (match tz_string with 58 :: _ => true | _ => false end) || existsb (fun x => x =? 0) tz_string
+             then fail EInvalidTzFile else
+             match tz_string with
+             | [] => ok None
+             | _ => let+ r := from_tz_string tz_string ext in ok (Some r)
+             end
+         | None => ok None
+         end)
+        (fun r => match r with Some r => rule_ok r | None => True end).
+Proof.
+  intros H. destruct footer as [f|]; [|apply postr_ok; exact I]. destruct H as [Hb Hl].
+  destruct (negb (utf8_valid f)); [apply postr_fail|].
+  match goal with |- context [if negb ?c then _ else _] => destruct (negb c) end; [apply postr_fail|].
+  destruct (trim_sub f Hb) as [Ht1 Ht2]. set (tz := trim_ascii_ws f) in *. clearbody tz. cbv zeta.
+  match goal with |- context [if ?c then _ else _] => destruct c end; [apply postr_fail|].
+  destruct tz as [|x r]; [apply postr_ok; exact I|].
+  eapply postr_rbind; [apply from_tz_string_spec; [unfold i64_max, u64_max in *; lia|exact Ht1]|].
+  intros rl Hrl. apply postr_ok. exact Hrl.
+Qed.
+
+Theorem parse_spec data : data_ok data ->
+  postr (parse data) (fun z => zone_wf z /\ exists rest, data = 84 :: 90 :: 105 :: 102 :: rest).
+Proof.
+  intros [Hlen Hbytes]. unfold parse.
+  assert (Hc0 : cur_ok (zlen data) (cur_new data)) by (apply cur_new_ok; [unfold i64_max, u64_max in *; lia|exact Hbytes]).
+  set (N := zlen data) in *.
+  eapply postr_rbind; [apply state_new_spec; exact Hc0|].
+  intros [st1 c1] (Hc1 & Hst1 & _ & Hmagic & _). cbn [remaining cur_new] in Hmagic.
+  eapply postr_rbind with
+    (P := fun '(st, footer) => (exists ts, (ts = 4 \/ ts = 8) /\ st_ok st ts) /\
+                               match footer with Some f => Forall byte f /\ zlen f < i64_max | None => True end).
+  { destruct (h_version (st_header st1)).
+    - destruct (cur_is_empty c1); [|apply postr_fail]. apply postr_ok. split; [exists 4; auto|exact I].
+    - eapply postr_rbind; [apply state_new_spec; exact Hc1|]. intros [st2 c2] (Hc2 & Hst2 & _).
+      destruct (h_version (st_header st2)); [apply postr_fail| |]; apply postr_ok;
+        (split; [exists 8; auto|]); destruct Hc2 as (Hq0 & Hq1 & Hq2 & Hq3);
+        (split; [exact Hq3|pose proof (zlen_nonneg (remaining c2)); unfold N in *; lia]).
+    - eapply postr_rbind; [apply state_new_spec; exact Hc1|]. intros [st2 c2] (Hc2 & Hst2 & _).
+      destruct (h_version (st_header st2)); [apply postr_fail| |]; apply postr_ok;
+        (split; [exists 8; auto|]); destruct Hc2 as (Hq0 & Hq1 & Hq2 & Hq3);
+        (split; [exact Hq3|pose proof (zlen_nonneg (remaining c2)); unfold N in *; lia]). }
+  intros [st footer] [(ts & Hts & Hst) Hfoot].
+  destruct Hst as [Hh Htsz [Ht1 Ht2] [Hy1 Hy2] [Hl1 Hl2] [Hn1 Hn2] [Hp1 Hp2] Hsw Hul].
+  cbv zeta. rewrite Htsz.
+  destruct Hh as (G1 & G2 & G3 & G4 & G5 & G6). unfold u32_max in *.
+  eapply postr_bind; [apply chunks_exact_spec; [lia|exact Ht2]|]. intros tchunks [Htc1 Htc2].
+  eapply postr_rbind.
+  { eapply map_res_len with (P := fun p => let '(arr, ty) := p in (zlen arr = ts /\ Forall byte arr) /\ byte ty).
+    - apply Forall_zip; [exact Htc1|exact Hy2].
+    - intros p Hp. apply parse_transition_spec; assumption. }
+  intros trs [Htrs Htrl].
+  eapply postr_bind; [apply chunks_exact_spec; [lia|exact Hl2]|]. intros lchunks [Hlc1 Hlc2].
+  eapply postr_rbind.
+  { eapply map_res_spec with (P := fun ch => zlen ch = 6 /\ Forall byte ch); [exact Hlc1|].
+    intros ch [Hc6 Hcb]. apply parse_ltt_spec; try assumption. unfold u32_max. lia. }
+  intros ltts Hltts.
+  unfold_ops. rewrite chk_in by (destruct Hts as [-> | ->]; range_solver). cbv [bind].
+  eapply postr_bind; [apply chunks_exact_spec; [lia|exact Hp2]|]. intros pchunks [Hpc1 Hpc2].
+  eapply postr_rbind.
+  { eapply map_res_len with (P := fun ch => zlen ch = ts + 4 /\ Forall byte ch); [exact Hpc1|].
+    intros ch [Hc6 Hcb]. apply parse_leap_spec; assumption. }
+  intros leaps [Hleaps Hleapl].
+  match goal with |- context [if ?c then _ else _] => destruct c end; [apply postr_fail|].
+  eapply postr_rbind; [apply footer_spec; exact Hfoot|]. intros rule Hrule.
+  eapply postr_weaken.
+  - apply tz_new_spec; try assumption.
+    + destruct (Forall_zip (fun arr => zlen arr = ts /\ Forall byte arr) byte tchunks (st_transition_types st) Htc1 Hy2) as [_ Hz].
+      assert (Hz' : zlen trs <= zlen tchunks) by (rewrite Htrl; exact Hz).
+      unfold i64_max. clear - Hts Ht1 Htc2 Hz' G4. destruct Hts as [-> | ->]; lia.
+    + assert (Hz' : zlen leaps <= zlen (st_leap_seconds st)) by (rewrite Hleapl; exact Hpc2).
+      unfold i64_max. clear - Hts Hp1 Hz' G3. destruct Hts as [-> | ->]; lia.
+  - intros z [_ Hwf]. split; [exact Hwf|]. exact Hmagic.
+Qed.
+
+(** ** Lookups on a well-formed zone never trap *)
+Lemma leap_loop_range leaps t : forall u, in_i64 u = true ->
+  match leap_loop leaps t u with Ok v => in_i64 v = true | Err _ => True end.
+Proof.
+  induction leaps as [|l r IH]; intros u Hu; cbn [leap_loop]; [exact Hu|].
+  destruct (u <? lp_time l); [exact Hu|].
+  unfold checked_add, chko. destruct (in_i64 (t + lp_corr l)) eqn:E; [apply IH; exact E|exact I].
+Qed.
+
+Lemma types_index0 z : zone_wf z -> 0 < zlen (local_time_types z).
+Proof.
+  intros H. pose proof (zw_nonempty z H) as Hn. destruct (local_time_types z) as [|l0 lr]; [congruence|].
+  rewrite zlen_cons. pose proof (zlen_nonneg lr). lia.
+Qed.
+
+Theorem find_local_time_type_total z t : zone_wf z -> in_i64 t = true ->
+  postr (find_local_time_type z t) (fun _ => True).
+Proof.
+  intros Hwf Ht. unfold find_local_time_type.
+  pose proof (types_index0 z Hwf) as H0. pose proof (zw_rule z Hwf) as Hrule.
+  assert (Hby : forall rule, rule_ok rule ->
+            postr (oor_to EFindLocalTimeType (rule_find_local_time_type rule t)) (fun _ => True)).
+  { intros rule Hr. apply oor_to_post. apply rule_find_local_time_type_total; assumption. }
+  destruct (last_of (transitions z)) as [last|] eqn:El.
+  - apply last_of_In in El.
+    pose proof (proj1 (Forall_forall _ _) (zw_trans z Hwf) last El) as [Hlt Hli].
+    eapply postr_rbind with (P := fun u => in_i64 u = true).
+    { apply oor_to_post. unfold unix_time_to_unix_leap_time.
+      pose proof (leap_loop_range (leap_seconds z) t t Ht) as Hr.
+      exists (leap_loop (leap_seconds z) t t). split; [reflexivity|exact Hr]. }
+    intros u Hu. destruct (u >=? tr_time last).
+    + destruct (extra_rule z) as [rule|]; [apply Hby; exact Hrule|].
+      eapply postr_bind; [apply (index_post (local_time_types z) (tr_idx last)); exact Hli|].
+      intros l _. apply postr_ok. exact I.
+    + destruct (search_next_spec (map tr_time (transitions z)) u) as (idx & -> & Hidx).
+      { pose proof (zw_len z Hwf) as [Hl _]. unfold zlen in *. rewrite map_length. unfold i64_max, u64_max in *. lia. }
+      assert (Hml : zlen (map tr_time (transitions z)) = zlen (transitions z)) by (unfold zlen; rewrite map_length; reflexivity).
+      rewrite Hml in Hidx. cbv [bind].
+      assert (Hlti : post (if idx >? 0 then let* i := sub_usize idx 1 in let* tr := index (transitions z) i in Val (tr_idx tr) else Val 0)
+                          (fun i => 0 <= i < zlen (local_time_types z))).
+      { destruct (idx >? 0) eqn:E2; [|apply post_val; lia].
+        unfold_ops. rewrite chk_in by (pose proof (zw_len z Hwf) as [Hl _]; unfold i64_max in *; range_solver). cbv [bind].
+        destruct (index_post_P _ (transitions z) (idx - 1) ltac:(lia) (zw_trans z Hwf)) as (tr & -> & Htr).
+        apply post_val. apply Htr. }
+      destruct Hlti as (lti & Hc & Hr). cbv [bind] in Hc. rewrite Hc. cbv beta iota.
+      eapply postr_bind; [apply (index_post (local_time_types z) lti); exact Hr|].
+      intros l _. apply postr_ok. exact I.
+  - destruct (extra_rule z) as [rule|]; [apply Hby; exact Hrule|].
+    eapply postr_bind; [apply (index_post (local_time_types z) 0); lia|].
+    intros l _. apply postr_ok. exact I.
+Qed.
+
+Theorem find_local_time_type_from_local_total z y lt : zone_wf z -> -2147483650 <= y <= 2147483650 ->
+  postr (find_local_time_type_from_local z y lt) (fun _ => True).
+Proof.
+  intros Hwf Hy. unfold find_local_time_type_from_local.
+  pose proof (types_index0 z Hwf) as H0. pose proof (zw_rule z Hwf) as Hrule.
+  assert (Hfin : forall l, postr (match extra_rule z with
+                                   | Some rule => oor_to EFindLocalTimeType (rule_find_local_time_type_from_local rule y lt)
+                                   | None => ok (MSingle l) end) (fun _ => True)).
+  { intros l. destruct (extra_rule z) as [rule|]; [|apply postr_ok; exact I].
+    apply oor_to_post. apply rule_find_local_time_type_from_local_total; assumption. }
+  destruct (transitions z) as [|t0 trs] eqn:Etr.
+  - eapply postr_bind; [apply (index_post (local_time_types z) 0); lia|]. intros l _. apply Hfin.
+  - eapply postr_bind; [apply (index_post (local_time_types z) 0); lia|]. intros prev _.
+    destruct (local_loop_total (local_time_types z) (t0 :: trs) prev lt) as (r & ->).
+    { pose proof (zw_trans z Hwf) as Htr. rewrite Etr in Htr.
+      eapply Forall_impl; [|exact Htr]. intros a [_ Ha]. exact Ha. }
+    cbv [bind]. destruct r as [m|l]; [apply postr_ok; exact I|apply Hfin].
+Qed.
+
+(** ** Corollaries in the form stated by the property *)
+Corollary parse_total data : data_ok data -> exists r, parse data = Val r.
+Proof. intros H. destruct (parse_spec data H) as (r & Hr & _). exists r. exact Hr. Qed.
+
+Corollary accept_sound data z : data_ok data -> parse data = Val (Ok z) ->
+  zone_wf z /\ exists rest, data = 84 :: 90 :: 105 :: 102 :: rest.
+Proof.
+  intros H Hp. destruct (parse_spec data H) as (r & Hr & Hq). rewrite Hp in Hr.
+  injection Hr as <-. exact Hq.
+Qed.
+
+Corollary lookup_total data z : data_ok data -> parse data = Val (Ok z) ->
+  (forall t, in_i64 t = true -> exists r, find_local_time_type z t = Val r) /\
+  (forall y lt, -2147483650 <= y <= 2147483650 -> exists r, find_local_time_type_from_local z y lt = Val r).
+Proof.
+  intros H Hp. destruct (accept_sound data z H Hp) as [Hwf _]. split.
+  - intros t Ht. destruct (find_local_time_type_total z t Hwf Ht) as (r & Hr & _). eauto.
+  - intros y lt Hy. destruct (find_local_time_type_from_local_total z y lt Hwf Hy) as (r & Hr & _). eauto.
+Qed.
+
+Corollary rule_total s ext : data_ok s -> exists r, from_tz_string s ext = Val r.
+Proof.
+  intros [Hl Hb]. destruct (from_tz_string_spec s ext) as (r & Hr & _); [unfold i64_max, u64_max in *; lia|exact Hb|eauto].
+Qed.
+Corollary rule_accept_sound s ext r : data_ok s -> from_tz_string s ext = Val (Ok r) -> rule_ok r.
+Proof.
+  intros [Hl Hb] Hp. destruct (from_tz_string_spec s ext) as (r' & Hr & Hq); [unfold i64_max, u64_max in *; lia|exact Hb|].
+  rewrite Hp in Hr. injection Hr as <-. exact Hq.
+Qed.
+
+(** Counts agree with the data: the version-1 block announced by the first header (six big-endian
+    counts at offsets 20..43) fits in the file, exactly so for a version-1 file; hence a file
+    truncated inside that block is rejected. *)
+Theorem accept_counts data z : data_ok data -> parse data = Val (Ok z) ->
+  exists h, hdr_ok h /\ hdr_layout h data /\ block_size h 4 <= zlen data /\
+            (h_version h = V1 -> block_size h 4 = zlen data).
+Proof.
+  intros [Hlen Hbytes] Hp. unfold parse in Hp.
+  assert (Hc0 : cur_ok (zlen data) (cur_new data)) by (apply cur_new_ok; [unfold i64_max, u64_max in *; lia|exact Hbytes]).
+  apply rbind_ok_inv in Hp. destruct Hp as ([st1 c1] & Hs & Hp).
+  destruct (state_new_spec (zlen data) (cur_new data) true Hc0) as (r & Hr & Hq).
+  rewrite Hs in Hr. injection Hr as <-. destruct Hq as (Hc1 & Hst1 & Hrc & _ & Hlay).
+  cbn [remaining read_count cur_new] in *.
+  exists (st_header st1). split; [apply (so_hdr _ _ Hst1)|]. split; [exact Hlay|].
+  destruct Hc1 as (Hq0 & Hq1 & _). pose proof (zlen_nonneg (remaining c1)).
+  split; [lia|]. intros Hv. apply rbind_ok_inv in Hp. destruct Hp as ([st f] & Hm & _).
+  rewrite Hv in Hm. unfold cur_is_empty in Hm. destruct (remaining c1) eqn:E; [|discriminate].
+  change (zlen (@nil Z)) with 0 in *. lia.
+Qed.
+
+(** ** Witnesses: the hypotheses of the theorems above are inhabited *)
+(* the version-1 file of the crate's own test [test_no_tz_string] (Guayaquil, macOS 10.11) *)
+Definition example_v1_file : bytes := [84; 90; 105; 102; 0; 0; 0; 0; 0; 0; 0; 0; 0; 0; 0; 0; 0; 0; 0; 0; 0; 0; 0; 2; 0; 0; 0; 2; 0; 0; 0; 0; 0; 0; 0; 1; 0; 0; 0; 2; 0; 0; 0; 8; 182; 164; 66; 24; 1; 255; 255; 182; 104; 0; 0; 255; 255; 185; 176; 0; 4; 81; 77; 84; 0; 69; 67; 84; 0; 0; 0; 0; 0].
+Definition example_tz_string : bytes := [69; 83; 84; 53; 69; 68; 84; 44; 77; 51; 46; 50; 46; 48; 44; 77; 49; 49; 46; 49; 46; 48].
+Lemma byte_forallb (l : bytes) : forallb (fun b => (0 <=? b) && (b <? 256)) l = true -> Forall byte l.
+Proof.
+  intros H. rewrite forallb_forall in H. apply Forall_forall. intros x Hx. specialize (H x Hx). unfold byte. lia.
+Qed.
+Lemma example_v1_file_ok : data_ok example_v1_file.
+Proof. split; [vm_compute; reflexivity|apply byte_forallb; vm_compute; reflexivity]. Qed.
+Lemma example_v1_file_accepted :
+  data_ok example_v1_file /\
+  parse example_v1_file =
+    Val (Ok (mk_tz [mk_tr (-1230749160) 1]
+                   [mk_ltt (-18840) false (Some [81; 77; 84]); mk_ltt (-18000) false (Some [69; 67; 84])]
+                   [] None)).
+Proof. split; [exact example_v1_file_ok|vm_compute; reflexivity]. Qed.
+Lemma example_tz_string_accepted :
+  data_ok example_tz_string /\
+  from_tz_string example_tz_string false =
+    Val (Ok (Alternate (mk_alt (mk_ltt (-18000) false (Some [69; 83; 84])) (mk_ltt (-14400) true (Some [69; 68; 84]))
+                               (MonthWeekday 3 2 0) 7200 (MonthWeekday 11 1 0) 7200))).
+Proof.
+  split; [split; [vm_compute; reflexivity|apply byte_forallb; vm_compute; reflexivity]|vm_compute; reflexivity].
+Qed.
+(* truncating the file by one byte, or corrupting the magic, turns acceptance into an error value *)
+Lemma example_truncated_rejected :
+  parse (removelast example_v1_file) = Val (Err EIo) /\
+  parse (0 :: tl example_v1_file) = Val (Err EInvalidTzFile).
+Proof. split; vm_compute; reflexivity. Qed.
+(* the addition the unrepaired lookup performed traps on an accepted transition time *)
+Lemma example_unrepaired_add_traps : add_i64 (i64_max - 10) 3600 = Panic /\ saturating_add_i64 (i64_max - 10) 3600 = i64_max.
+Proof. split; vm_compute; reflexivity. Qed.
